@@ -2,6 +2,8 @@
 
 package c05
 
+// Debug aids (VERIF_C05_DEBUG=1): dump of the region layout at a failed demanded read, slow reads.
+
 import (
 	"fmt"
 	"os"
